@@ -15,6 +15,7 @@ import (
 
 // extra sim state used by the event generator
 type simExtra struct {
+	usedZero      bool
 	lastDesc      string
 	lastEditClass string
 	everOpen      bool
@@ -177,6 +178,10 @@ func (s *sim) send(body []byte, desc string) {
 
 func (s *sim) newID() any {
 	s.nextID++
+	if !s.usedZero && s.src.Intn(30, "c18.idzero") == 29 {
+		s.usedZero = true
+		return 0 // a legal id that is "falsy" in many languages
+	}
 	switch s.src.Intn(5, "c18.idkind") {
 	case 1:
 		return "req-" + strconv.Itoa(s.nextID)
@@ -306,6 +311,14 @@ func (s *sim) oneMessage(inBurst bool) {
 	default:
 		if s.sent > 8 && !inBurst {
 			s.request("shutdown", nil)
+			// between shutdown and exit the server still has to answer what it is asked
+			for i := s.src.Intn(4, "c18.aftershutdown"); i > 0; i-- {
+				s.someRequest()
+				s.r.Faults["request-after-shutdown"]++
+			}
+			if s.src.Intn(6, "c18.reinit") == 5 {
+				s.request("initialize", map[string]any{"processId": 1, "rootUri": "file:///", "capabilities": map[string]any{}})
+			}
 			s.notify("exit", nil)
 			s.exited = true
 		}
